@@ -25,9 +25,14 @@ TupV(s)      == [t |-> "tup", v |-> s]
 StrV(s)      == [t |-> "str", s |-> s]
 EvV          == [t |-> "ev"]
 
-IsFault(v) == v.t = "fault"
-IsUndef(v) == v.t = "undef"
-Bad(v)     == v.t \in {"fault", "undef"}
+\* "sfault" / "sundef": a bad value that decides whether a sequence element EXISTS (the predicate
+\* of a Where could not be evaluated).  Unlike a bad element value, which only matters if some
+\* consumer looks at it, it cannot be ignored by a later Select that drops its parameter.
+IsFault(v) == v.t \in {"fault", "sfault"}
+IsUndef(v) == v.t \in {"undef", "sundef"}
+Bad(v)     == v.t \in {"fault", "undef", "sfault", "sundef"}
+StrictBad(v) == v.t \in {"sfault", "sundef"}
+Strict(v)  == IF v.t = "fault" THEN [v EXCEPT !.t = "sfault"] ELSE IF v.t = "undef" THEN [v EXCEPT !.t = "sundef"] ELSE v
 
 \* of two operands, both evaluated, at least one bad: an undef wins (the event is out of
 \* scope), otherwise the leftmost fault
@@ -37,7 +42,8 @@ RECURSIVE FirstBadFrom(_, _, _)
 \* first undef if any, else first fault, else <<>>-marker; `pick` is "undef" or "fault"
 FirstBadFrom(s, i, pick) ==
   IF i > Len(s) THEN [t |-> "none"]
-  ELSE IF s[i].t = pick THEN s[i] ELSE FirstBadFrom(s, i + 1, pick)
+  ELSE IF (pick = "undef" /\ IsUndef(s[i])) \/ (pick = "fault" /\ IsFault(s[i])) THEN s[i]
+  ELSE FirstBadFrom(s, i + 1, pick)
 FirstBad(s) == LET u == FirstBadFrom(s, 1, "undef") IN
                IF u.t # "none" THEN u ELSE FirstBadFrom(s, 1, "fault")
 AnyBad(s) == \E i \in DOMAIN s : Bad(s[i])
